@@ -28,6 +28,17 @@ def run(prop, tier, seed, t0, H, second=None, second_engine=None):
         from . import worlddeep
         worlds = [w for pp in sorted(MODULES) for w in W.load_corpus(pp)] + W.run_histories(seed, n, tier) \
                  + W.run_histories(seed + 7, 24 if tier == "quick" else 300, tier, gen=worlddeep.gen_deep_history)
+        if prop in ("C05", "C06"):
+            # the PROPOSAL flow (Model.Proposal): leaves by members / admins / the last admin, two leavers in one epoch, leaves that
+            # race the round's commits or arrive while the receiver's own commit is pending, the leaver's echo and re-deliveries,
+            # admins merging / clearing the automatic commit, crafted Remove(other) / Add / GroupContextExtensions / PSK / Update
+            # proposals from non-admins (see worldeng.gen_race_history, flavours L and A)
+            worlds += W.run_histories(seed + 13, 36 if tier == "quick" else 450, tier,
+                                      gen=lambda w, rng, tr: W.gen_race_history(w, rng, tr, p_leave=0.65))
+            rule += ("; for C05 / C06 additionally histories with the proposal flow on: leave_group by members, admins and the last admin (one or two per round, "
+                     "before / racing / after the round's commits, delivered before the receivers' own pending commits are applied), automatic commits merged at once, "
+                     "on their echo, or cleared; stand-alone Remove(other), Add, GroupContextExtensions, PSK and Update proposals crafted by (mostly non-admin) members "
+                     "with the MLS library; every step compared with Model.Proposal incl. pending adds / removes, store size and the pending-commit flag")
         corr, compared = W.correspondence(worlds)
         ofails, stats = [], {"worlds": 0, "quiesced": 0, "live_clients": 0, "divergence": {}, "crashed": 0}
         for w in worlds:
@@ -37,6 +48,13 @@ def run(prop, tier, seed, t0, H, second=None, second_engine=None):
                 continue
             f, facts_w = W.oracle_world(w)
             ofails += f
+            for sig in getattr(w, "expect", []):
+                # a corpus witness of a known mechanism: the oracle must still report it on the implementation (the model follows the
+                # code: if the library changes here, model, theorems and finding status change with it)
+                hit = any(x["signature"] == sig for x in f)
+                stats.setdefault("witnesses_reproduced", {})[f"{w.id}:{sig}"] = hit
+                if prop in ("C05", "C06"):
+                    ob.add(f"tie:witness:{sig}:{w.id.split(':')[-1]}", hit, "" if hit else f"the oracle no longer reports {sig} on {w.id}")
             stats["worlds"] += 1
             stats["quiesced"] += 1 if facts_w.get("quiesced") else 0
             stats["live_clients"] += facts_w.get("live", 0)
@@ -72,12 +90,23 @@ def run(prop, tier, seed, t0, H, second=None, second_engine=None):
             ofails += rf
             corr += rcorr; compared += sum(len(c["ops"]) for c in rc)
             extra["routing_store_cases"] = {"cases": len(rc), **rstats}
+        if prop in ("C05", "C06"):
+            ph = {}
+            for w in worlds:
+                for cmd, res, _ in w.trace:
+                    if cmd.startswith("deliver "):
+                        evd = w.events.get(int(cmd.split()[2])) or {}
+                        if evd.get("kind") == "proposal":
+                            k = f"{evd.get('sub') or 'proposal'}:{res.split()[0]}"
+                            ph[k] = ph.get(k, 0) + 1
+            extra["proposal_delivery_histogram"] = dict(sorted(ph.items()))
+            extra["proposal_flow_worlds"] = H.hist([getattr(w, "meta", {}).get("flavour") or "-" for w in worlds])
         mine = [f for f in ofails if prop in f.get("props", [f["prop"]])]
         failures += mine + corr
         cmds = [c.split()[0] for w in worlds for c, _, _ in w.trace]
         results = [r.split()[0].split("=")[0].split(":")[0] for w in worlds for _, r, _ in w.trace]
         nontriv = {tuple(c for c, _, _ in w.trace) for w in worlds
-                   if any(c.startswith(("restart", "merge")) for c, _, _ in w.trace) or sum(1 for c, _, _ in w.trace if c.startswith(("selfupdate", "data"))) >= 2}
+                   if any(c.startswith(("restart", "merge", "leave", "advprop")) for c, _, _ in w.trace) or sum(1 for c, _, _ in w.trace if c.startswith(("selfupdate", "data"))) >= 2}
         coverage = {"evaluations": len(worlds), "distinct_nontrivial": len(nontriv), "rule": rule,
                     "traces_validated_against_impl": len(worlds), "steps_compared": compared,
                     "command_histogram": H.hist(cmds), "result_histogram": H.hist(results), "oracle_stats": stats,
